@@ -77,7 +77,7 @@ PROPS = {
     },
     "C08": {
         "level": EXPL,
-        "plan": [{"engine": "shipsim1", "timeout": T_SIM}],
+        "plan": [{"engine": "shipsim1", "timeout": T_SIM}, {"engine": "wsconn", "timeout": T_SIM}],
         "rule": "B1 histories (see C01): in every handshake state reachable by a cooperative prefix, both roles, each input of the alphabet (valid messages of "
                 "every phase, field removed/duplicated/ill-typed, empty lists, huge numbers, deep nesting, whitespace variants, NUL padding, wrong header bytes) "
                 "and byte-level mutations/arbitrary bytes; a panic is recovered at the entry point (or kills the child process, attributed by the scenario log), "
@@ -104,5 +104,30 @@ PROPS = {
                 "(complete) and prolongation loops (pending); distinct = (delivery expected?, #connections, GOMAXPROCS, zero-gap stop, program length)",
         "floors": {"evaluations": 2000, "classes": 30, "counters": {"timers:stop-immediately-after-arm": 100}},
         "assumptions": ["a timeout is observed through its effect (error report / prolongation frame); only the first delivery per connection is visible in hook programs"],
+    },
+    "C13": {
+        "level": FAULT,
+        "plan": [{"engine": "wsconn", "timeout": T_SIM}],
+        "rule": "real ws.WebsocketConnection on a gorilla conn (client- and server-side variants) over a fault-injecting net.Conn on a net.Pipe, raw websocket "
+                "peer with its own frame codec, synctest bubble (virtual ping/pong/write deadlines); sessions of 0..8 in/out messages and ping rounds with: a failure "
+                "at the k-th read / k-th write (error, EOF, short write) for k over the session, peer close frames (no code, 1000, 1001, 4001, 4452, 4500, random), peer EOF, "
+                "local close with/without reason; readers: reacting like ShipConnection (two variants), the real ShipConnection, passive (logged only); checked 75 virtual "
+                "seconds later: error reported / not reported, closed-query, nothing delivered afterwards, Close() called on the conn, no pump goroutine left in the bubble; "
+                "distinct = (kind, mode, close code class, reader, side)",
+        "floors": {"evaluations": 500, "classes": 40, "counters": {"wsconn:kind:read-fault": 20, "wsconn:kind:write-fault": 20}},
+        "crash_prop": "C13", "crash_decides": True,
+        "assumptions": ["fault indices are sampled within the session, not every k of every session", "concurrent-writer traffic with faults is exercised in the real-time C12 scenarios"],
+    },
+    "C12": {
+        "level": EXPL,
+        "plan": [{"engine": "wsconn", "timeout": T_SIM}],
+        "rule": "real time: 1..32 writer goroutines x <=16 unique messages on one connection, peer reading promptly / slowly / not at all (full queue), closing event "
+                "(local close with/without reason, peer close frame, peer EOF, failing k-th transport write, none) fired after a seeded number of accepted writes; every "
+                "write call is recorded (call/return on one monotonic clock, result, recovered panic, closed-flag seen before the call); oracle: no panic, no write parked "
+                "for ever (two goroutine dumps), no accepted write after closed was observed, received sequence = gap-free prefix of a linearization of the accepted writes "
+                "(direct check + porcupine with a deterministic queue-prefix model); distinct = (writers, peer, event, accepted/received buckets, errors, close between writes)",
+        "floors": {"evaluations": 500, "classes": 60, "counters": {"wsconn:close-between-writes-of-one-writer": 50, "wsconn:porcupine-ok": 300}},
+        "crash_prop": "C12", "crash_decides": True,
+        "assumptions": ["scenarios that would need the real 10 s write deadline (stalled peer + close with reason) are not in the quick tier"],
     },
 }
